@@ -19,7 +19,7 @@ func init() {
 			"R20a every function literal of package ledgerstore with the signature of query.ContextFn (all v1 and v2 filters funnel through Builder.Build → Context.BuildMatcher) is analysed with key, operator and value as taint sources: nothing tainted reaches its first result (the SQL fragment) unless sanitised — equality with a constant on every path to the use, lookup in a package-level map of constants, a successful match against a package-level regexp proved quote-safe by walking its syntax tree (anchored ^…$, no ' \" \\ and no wide/negated class), or a numeric/time type; bound arguments (second result) are not sinks. " +
 			"R20b the combinators of libs/query (set.Build, not.Build, keyValue.Build) add only constant text around nested Build results: the only field they format is set.operator, whose every writer stores a constant or the tail of a parameter that all call sites have compared with constants. " +
 			"R20c in package ledgerstore the format/expression argument of every bun.SelectQuery builder call (Where, Join, ColumnExpr, TableExpr, OrderExpr, …) derives only from constants, Builder.Build results (R20a/b), rendered sub-queries, numeric/time formatting, or string parameters whose every call site passes such a value. " +
-			"R20e the text of a rendered query (SelectQuery.String()) is never used as a format that is given arguments — neither in a builder call nor in the (sql, args) pair of a filter — since bun would look for placeholders inside its literals. R20d a `?` argument is data only while bun quotes it: every conversion to the types bun appends verbatim or as an identifier (schema.Safe, Name, Ident, QueryWithArgs — bun.Safe, bun.Ident, bun.SafeQuery, UnsafeIdent) anywhere outside libs takes a string that is clean in the sense of R20c (expected count on today's tree: zero; a mutant keeps the rule exercised).",
+			"R20f where ledgerstore builds a fragment with Sprintf and a constant format, text that comes from the client (a string parameter some caller binds to a non-constant, and what is split, indexed, ranged, converted or JSON-encoded from it) fills only verbs that stand between single quotes. R20e the text of a rendered query (SelectQuery.String()) is never used as a format that is given arguments — neither in a builder call nor in the (sql, args) pair of a filter — since bun would look for placeholders inside its literals. R20d a `?` argument is data only while bun quotes it: every conversion to the types bun appends verbatim or as an identifier (schema.Safe, Name, Ident, QueryWithArgs — bun.Safe, bun.Ident, bun.SafeQuery, UnsafeIdent) anywhere outside libs takes a string that is clean in the sense of R20c (expected count on today's tree: zero; a mutant keeps the rule exercised).",
 		NotDecided:  "bun's own quoting of bound `?` arguments; the cursor's Column/Order fields (client-controlled, formatted into ORDER BY by bunpaginate — outside the statement, which is about list filters); ledger and bucket names flowing into DDL.",
 		Trusted:     []string{"bun binds ? arguments as parameters / quoted literals", "regexp/syntax parses patterns as package regexp does"},
 		Assumptions: []string{"free variables captured by the filter callbacks that carry text are treated as tainted too (conservative)"},
@@ -122,6 +122,7 @@ func runC20(c *Ctx) {
 	ruleR20b(c, tc, build, buildMatcher)
 	// ---- R20c: formats
 	ruleR20c(c, tc, build)
+	ruleR20f(c, "R20f")
 }
 
 func ruleR20b(c *Ctx, tc *taintCfg, build, buildMatcher *types.Func) {
